@@ -20,7 +20,7 @@ theorem parsers_binding (b : Body) : parsers.lookup b.typeCode = some (className
 theorem shape_tables : shapeNames = [(1, "rect"), (2, "roundRect"), (3, "oval"), (4, "line")] ∧
     directions = [(5, "lt_br"), (6, "bl_tr")] := by decide
 
-theorem transition_table : transitionNames.map Prod.fst = (List.range 52).map (fun i => (i : Int) + 1) ∧
+theorem transition_table : transitionNames.map Prod.fst = (List.range 52).map (fun (i : Nat) => (i : Int) + 1) ∧
     transitionNames.map Prod.snd =
       ["wipe right", "wipe left", "wipe down", "wipe up", "center out, horizontal", "edges in, horizontal",
        "center out, vertical", "edges in, vertical", "center out, square", "edges in, square", "push left", "push right",
@@ -136,7 +136,8 @@ example : ∀ m ∈ exMembers, parseCast .macRoman (encD4 m) = view .macRoman m 
     have hv : m.valid := (by decide +kernel : ∀ m ∈ exMembers, m.valid) m hm
     ⟨roundtrip_d4 _ m hv, roundtrip_d5 _ m hv⟩
 
-example : nameView .macRoman exInfo.extras = .ok "A_e.b".toList := by
+/-- `A`, `/`, `é` (0x8E in Mac Roman), `.`, `b`: the separator and the accented letter become `_` -/
+example : (match nameView .macRoman exInfo.extras with | .ok s => s == "A__.b".toList | .error _ => false) = true := by
   rw [show exInfo.extras = [0x6F, 0x6E] :: pascal [0x41, 0x2F, 0x8E, 0x2E, 0x62] :: [[], [0xFF]] from rfl, name_decodes _ _ _ _ (by decide)]
   decide +kernel
 
